@@ -9,6 +9,13 @@ import CnlSpec.MakeFraction
   `cf i2f <ity> <fmt> <int>`, `cf f2i <fmt> <ity> <x>`, `cf f2f <src> <dst> <x>`
   (floating values as C hex floats, results compared verbatim with glibc's `%a`/`%La`).
 * `C17 mf <fmt> <ity> <x>` — `cnl::fraction<ity>(x)`: result `num/den`, or `UB`, `UNREACHABLE`, `TIMEOUT`.
+  The generic model `makeFractionC` with `Comp.builtin` is evaluated next to `makeFractionX` on each of
+  these lines (component types of at least 32 bits) and has to agree (`GENERIC-MODEL-DISAGREES` otherwise).
+* `C17 mfw <fmt> <cnl type> <x>` — the same for a component type that is a CNL number (`wd(N,i32)`,
+  `ov(i32|i64|wd(N,i32),sat|trp|thr)`, `el(N,i32)`, `rd(i32,nrst)`); components in decimal; also `TRAP±`,
+  `THROW±`.  Model: `makeFractionC` with the component description `compOfTy`.  Where that model does not
+  predict the line (a component left its stored width: `ill`) the line carries the implementation's own
+  result and is judged by the oracle alone (branch label `unpredicted`, counted as trivial).
 -/
 namespace Cnl.Drv.C17
 open Cnl Cnl.Drv Cnl.FloatIO Cnl.MakeFraction
@@ -58,7 +65,11 @@ def exitName : Exit → String
 def checkMF (fm it xs : String) (res : String) : Option Verdict := do
   let F ← parseFmt fm; let I ← parseIntTy it; let x ← F.ofHex? xs
   let r := makeFractionX F I x mfFuel
-  let model := showRes (fun p => showFrac p.1) r
+  -- the generic (component-parametric) model must agree with the built-in one on every built-in line
+  let generic := if I.signed ∧ 32 ≤ I.bits then
+      decide ((makeFractionC F (Comp.builtin (I.bits - 1)) x mfFuel).map (·.1) = r.map (·.1))
+    else true
+  let model := if generic then showRes (fun p => showFrac p.1) r else "GENERIC-MODEL-DISAGREES"
   let dom := MakeFractionSpec.inDomain I x
   -- the oracle judges the implementation's own result
   let (spec, clause) : Option Bool × String :=
@@ -78,6 +89,54 @@ def checkMF (fm it xs : String) (res : String) : Option Verdict := do
   some { model := model, spec := spec, cls := cls, branch := "mf/" ++ fm ++ "/" ++ it ++ "/" ++ branch ++ (if clause.isEmpty then "" else "!" ++ clause),
          nontrivial := dom }
 
+/-- the component description of a CNL number type (`none`: not a kind this table covers) -/
+def compOfTy : Ty → Option Comp
+  | .wd d (.int n) =>
+    -- single word: the narrowest built-in that holds d digits (at least `n`); multi-word: whole 32-bit limbs
+    let store := if d ≤ 31 ∧ n.bits ≤ 32 then 32 else if d ≤ 63 ∧ n.bits ≤ 64 then 64 else if d ≤ 127 then 128
+                 else n.bits * ((d + 1 + n.bits - 1) / n.bits)
+    let multi := decide (127 < d ∨ 64 < n.bits)
+    some ⟨d, store, .keep, .keep, false, if multi then .unknown else .ub, if multi then n.bits else 0⟩
+  | .el d (.int n) =>
+    let store := if d ≤ 31 ∧ n.bits ≤ 32 then 32 else if d ≤ 63 then 64 else 128
+    some ⟨d, store, .keep, .keep, false, .keep, 0⟩
+  | .ov r t => do
+    let m ← match t with
+      | .sat => some OvMode.sat | .trp => some OvMode.trap | .thr => some OvMode.throw | _ => none
+    match r with
+    | .int i => if i.signed ∧ 32 ≤ i.bits then some ⟨i.bits - 1, i.bits, m, m, false, .ub, 0⟩ else none
+    | .wd d (.int _) => if d ≤ 127 then some ⟨d, d + 1, m, m, false, .ub, 0⟩ else none
+    | _ => none
+  | .rd (.int i) .nrst => if i.signed ∧ 32 ≤ i.bits then some ⟨i.bits - 1, i.bits, .ub, .ub, true, .ub, 0⟩ else none
+  | _ => none
+
+def checkMFW (fm ct xs : String) (res : String) : Option Verdict := do
+  let F ← parseFmt fm; let T ← parseTy ct; let C ← compOfTy T; let x ← F.ofHex? xs
+  let I := MakeFractionSpec.compTy C
+  let r := makeFractionC F C x mfFuel
+  -- a component beyond its stored width is not predicted: the line then carries the implementation's
+  -- own result and is judged by the oracle alone
+  let unpredicted := match r with | .ill _ => true | _ => false
+  let model := if unpredicted then res else showRes (fun p => showFrac p.1) r
+  let dom := MakeFractionSpec.inDomain I x
+  let (spec, clause) : Option Bool × String :=
+    if !dom then (none, "") else
+    match parseFrac res with
+    | some fr =>
+      match MakeFractionSpec.violated I x fr with
+      | none => (some true, "")
+      | some c => (some false, c.toString)
+    | none => (some false, res)
+  let branch := match r with
+    | .ok p => exitName p.2
+    | .ill _ => "unpredicted"
+    | _ => model
+  let cls := match MakeFractionSpec.classifyC F C x mfFuel with
+    | some c => c.id
+    | none => ""
+  some { model := model, spec := spec, cls := cls, branch := "mfw/" ++ fm ++ "/" ++ ct ++ "/" ++ branch ++ (if clause.isEmpty then "" else "!" ++ clause),
+         nontrivial := dom && !unpredicted }
+
 end Cnl.Drv.C17
 namespace Cnl.Drv
 open Cnl.Drv.C17
@@ -86,6 +145,7 @@ def checkC17 (toks : List String) (res : String) : Option Verdict :=
   match toks with
   | "cf" :: rest => checkCF rest
   | ["mf", fm, it, x] => checkMF fm it x res
+  | ["mfw", fm, ct, x] => checkMFW fm ct x res
   | _ => none
 
 end Cnl.Drv
